@@ -100,8 +100,47 @@ class SymDict:
 
 
 class Dispatcher:
+    def __init__(self):
+        self.symkeys = {}  # id(dict) -> [dict object, [(symbolic key, value), ...]]
+
+    def _side(self, d, create=False):
+        ent = self.symkeys.get(id(d))
+        if ent is None and create:
+            ent = [d, []]
+            self.symkeys[id(d)] = ent
+        return ent[1] if ent else None
+
+    def setitem(self, obj, key, value):
+        if isinstance(obj, dict) and not isinstance(obj, SymDict) and is_sym(key):
+            if isinstance(key, SymChoice):
+                obj[key.concretize("dict-key")] = value
+                return
+            side = self._side(obj, True)
+            for ent in list(side):
+                if _b.bool(sym_eq(ent[0], key)):
+                    side.remove(ent)
+            for k in list(obj):
+                if _b.bool(sym_eq(key, k)):
+                    obj[k] = value
+                    return
+            side.append((key, value))
+            return
+        obj[key] = value
+
     # -------- method calls
     def callm(self, recv, name, args, kwargs):
+        if isinstance(recv, dict) and self.symkeys and id(recv) in self.symkeys and self.symkeys[id(recv)][1]:
+            side = self.symkeys[id(recv)][1]
+            if name == "clear":
+                side.clear()
+                return recv.clear()
+            if name == "get":
+                try:
+                    return self.getitem(recv, args[0])
+                except KeyError:
+                    return args[1] if len(args) > 1 else None
+            if name in ("pop", "popitem", "keys", "values", "items", "copy", "update", "setdefault"):
+                raise Unsupported("dict.%s on a dict holding symbolic keys" % name)
         if isinstance(recv, SymSeq):
             m = getattr(recv, "m_" + name, None)
             if m is None:
@@ -167,6 +206,10 @@ class Dispatcher:
 
     # -------- subscripts
     def getitem(self, obj, key):
+        if isinstance(obj, dict) and self.symkeys and id(obj) in self.symkeys:
+            for k, v in reversed(self.symkeys[id(obj)][1]):
+                if _b.bool(sym_eq(k, key)):
+                    return v
         if isinstance(obj, dict) and (is_sym(key)):
             if isinstance(key, SymChoice):
                 key = key.concretize("dict-key")
@@ -186,6 +229,10 @@ class Dispatcher:
 
     # -------- `in`
     def contains(self, item, container):
+        if isinstance(container, dict) and self.symkeys and id(container) in self.symkeys:
+            for k, _v in self.symkeys[id(container)][1]:
+                if _b.bool(sym_eq(k, item)):
+                    return True
         if isinstance(container, SymDict):
             return bool(container.present(item))
         if isinstance(container, SymSet):
@@ -277,6 +324,7 @@ def _int_base(x, base):
         # valid iff every unit is a decimal digit (hex-provenance units cannot be sign/space/underscore)
         conds = []
         digs = []
+        general = False
         for u in units:
             if isinstance(u, int):
                 if not (48 <= u <= 57):
@@ -285,9 +333,16 @@ def _int_base(x, base):
             elif isinstance(u, Hx):
                 conds.append(mk_bool(z3.ULT(u.nib, 10)))
                 digs.append(SymInt.from_unsigned(u.nib, 0, 15))
+            elif getattr(u, "ascii", False):
+                conds.append(mk_bool(z3.And(z3.UGE(u.t, 48), z3.ULE(u.t, 57))))
+                general = True
+                digs.append(SymInt.mk(z3.ZeroExt(1, u.t) - 48, 0, 9))
             else:
                 raise Unsupported("int() base 10 of general symbolic units")
         if not bool(b_and(*conds)):
+            if general:
+                # a general character that is not a digit may still be accepted by int() (blanks, sign, underscore)
+                raise Unsupported("int() of text with a symbolic non-digit character")
             raise ValueError("invalid literal for int() with base 10 (symbolic)")
         v = 0
         for d in digs:
